@@ -37,6 +37,25 @@ func extraSuite(name string, g *gen, e *emitter, n int) bool {
 			}
 		}
 	case "twins":
+		// "the meaning of `*` next to Authorization does not depend on which of the two is listed first": every combination of
+		// credentialed access, a third discrete name, debug mode and seven shapes of the ACRH field, for both orders
+		for _, cred := range []bool{false, true} {
+			for _, extra := range [][]string{nil, {"X-Foo"}} {
+				c1 := cors.Config{Origins: []string{"https://a.com"}, Credentialed: cred, Methods: []string{"PUT"},
+					RequestHeaders: append([]string{"Authorization", "*"}, extra...)}
+				c2 := c1
+				c2.RequestHeaders = append(append([]string{"*"}, extra...), "authorization")
+				for _, dbg := range []bool{false, true} {
+					for _, acrh := range [][]string{nil, {"authorization"}, {"x-foo"}, {"authorization,x-foo"}, {"content-type,x-bar"}, {"x-bar", "authorization"}, {""}} {
+						rq := request{method: "OPTIONS", hdrs: []kv{{"Origin", []string{"https://a.com"}}, {"Access-Control-Request-Method", []string{"PUT"}}}}
+						if acrh != nil {
+							rq.hdrs = append(rq.hdrs, kv{"Access-Control-Request-Headers", acrh})
+						}
+						pairTwin(e, c1, c2, dbg, rq)
+					}
+				}
+			}
+		}
 		for i := 0; i < n; {
 			c := g.config(100)
 			if !accepts(c) {
